@@ -17,9 +17,9 @@ CHECKS = {
             "HTTP/1.1 client and backend only (no HTTP/2, TLS, 421, connect timeout against a black-holed address); five shapes are known findings excluded by construction with strict reproducers.",
             "DESIGN.md §4 C02"),
     "C03": ("exploration",
-            "grammar-based mutation of valid HTTP/1.1 request streams through a live worker; differential oracle: a strict RFC 9112 reader plus 14 permissive reader variants must agree on what each backend connection received, and it must be what sozu stamped",
+            "grammar-based mutation of valid HTTP/1.1 request streams and of HTTP/2 header lists / frame sequences through a live worker; differential oracle: a strict RFC 9112 reader plus 14 permissive reader variants must agree on what each backend connection received, and it must be what sozu stamped",
             "Generated pipelined request streams (Content-Length / chunked bodies, embedded request text in bodies) are mutated by 19 smuggling mutators (CL/TE conflicts and variants, duplicate and malformed lengths, bare LF/CR, obs-fold, whitespace before colon, invalid bytes in names/values, chunk extensions and sizes, HTTP/1.0 + TE, ...) plus byte-level mutations and sent at generated segmentations through a live worker to recording backends of two clusters. Oracle on the bytes each backend connection received: accepted by the strict reader with all variants agreeing on boundaries; every request found carries exactly one Sozu-Id (was emitted by sozu as a head), the routed cluster's host, method/target/body equal to the client message with that marker; no CR/LF/NUL/CTL in forwarded values, every forwarded field is the client's or one of sozu's documented additions; the client receives a readable response sequence with no response delivered twice. An in-process sub-check guards the readers themselves.",
-            "HTTP/1.1 frontend -> HTTP/1.1 backend only; the HTTP/2 half of the property and a coverage-guided byte fuzzer are not built; CONNECT / Upgrade / Expect are not generated; seven shapes (mostly in the kawa parser) are known findings excluded by construction with strict reproducers.",
+            "Sub-check h2smuggle covers the HTTP/2 frontend: 1..4 streams of one TLS/h2 connection toward recording keep-alive HTTP/1.1 backends, valid requests plus 0..2 of 19 mutation families (content-length against DATA in every END_STREAM placement, duplicate / malformed content-length, transfer-encoding, connection-specific fields, forbidden bytes in names and values, pseudo-header order / duplication / content, :path and :method injections, trailers carrying framing fields, bodies that look like requests), written in generated pieces with CONTINUATION splits and padding; same reader-agreement oracle plus marker, method/target/host, body = DATA sent, no injected line, and every answer belongs to its own stream. h2c backends and frame-level faults are left to C13 / C15; CONNECT / Upgrade / Expect are not generated; no coverage-guided byte fuzzer for this property. Known findings excluded by construction with strict reproducers: seven HTTP/1.1 shapes (mostly in the kawa parser) and HTTP/2 :path bytes above 0x7f.",
             "DESIGN.md §4 C03"),
     "C13": ("exploration",
             "generated header-list search in a wire lab with an exact field-by-field oracle on what the backend received and what the client received",
@@ -34,7 +34,7 @@ CHECKS = {
     "C08": ("exploration",
             "stateful generated command-sequence search against a live worker (real Server in a thread, real command channel) with a ConfigState reference model and live probes",
             "Each scenario starts a fresh worker and sends 1..3 bursts of commands over the command channel (all 40 mutating / query / control verb classes, valid and invalid, bursts written in one write so the worker reads them as one batch, port blockers to make activations fail, optional client traffic in between), then a closing Status, queries, probes and a stop verb (SoftStop or HardStop, possibly with a tail of commands in the same write). Oracle: every id sent gets exactly one final answer and no unknown id is answered; the worker's queryable view (QueryClusterById for five ids, QueryClustersHashes) equals a ConfigState fed the commands answered OK; connect() succeeds exactly on the addresses the model has an active listener on (ownership checked through /proc); a routed GET for a plain frontend reaches one of the model's backends; the stop verb gets one OK and the worker thread ends within 4 s; a worker panic anywhere is a failure. Failures are re-run twice on new workers.",
-            "Listeners are added inactive then activated, as the CLI does; SCM hand-over only at the end of a burst; interleaved traffic is not judged beyond panics; routing negatives not checked. Eight shapes are known findings excluded by construction with strict reproducers.",
+            "Listeners are added inactive then activated, as the CLI does; SCM hand-over only at the end of a burst; interleaved traffic is not judged beyond panics; routing negatives not checked. Two shapes are known findings excluded by construction with strict reproducers (a Failure answer that still changes the queryable view; frontends lost when a listener is removed and added again); six others were repaired in sozu and are generated freely.",
             "DESIGN.md §4 C08"),
     "C09": ("fault_enumeration",
             "generated fault-script search over a real CommandHub with scripted fake workers and real unix-socket clients",
@@ -59,7 +59,7 @@ CHECKS = {
     "C19": ("exploration",
             "stateful property-based testing (proptest) of the pure UdpManager with a virtual clock against a reference flow-table model; generated bursts of interleaved clients against a live worker's UDP listener with recording mock backends (wire lab)",
             "Generated interleavings of client datagrams, backend datagrams, backend resolutions (prompt, late, duplicate, stale), clock advances, timeouts (exact, late, and early as the timer wheel can fire), cap / affinity / PROXY-v2 / cluster reconfiguration, drain and mass teardown; after every call the drained outputs are compared with the model: one backend per flow for its whole life, replies only to the flow's client, payloads at most once and in order, PROXY-v2 prefix validated, admission only under the cap, each flow closed exactly once, accounting and timer consistent. Bounded exploration; the real UDP listener with sockets is not in the loop.",
-            "Sub-check wire: 2..6 clients on their own loopback addresses send keyed datagrams (0 bytes .. 64 KiB) in back-to-back bursts that mix a new flow's first datagram with datagrams of established flows, with one silence beyond the idle timeouts, under generated caps (requests, responses, max flows), affinity modes, load-balancing policies and PROXY-v2 modes; from what the backends recorded and the clients received: one upstream socket per flow life and one backend per life, lives never interleave, every payload byte-exact, at most once and in order, replies only to their own client, caps respected, expired flows closed (a late backend datagram never reaches the client), worker alive. No IPv6, no mid-flow reconfiguration beyond the known finding (affinity change with live flows, strict reproducer).",
+            "Sub-check wire: the configuration reaches the worker in one of three generated orders (cluster first; frontend before cluster; a cluster in service updated by a second AddCluster), then 2..6 clients on their own loopback addresses send keyed datagrams (0 bytes .. 64 KiB) in back-to-back bursts that mix a new flow's first datagram with datagrams of established flows, with one silence beyond the idle timeouts, under generated caps (requests, responses, max flows), affinity modes, load-balancing policies and PROXY-v2 modes; from what the backends recorded and the clients received: one upstream socket per flow life and one backend per life, lives never interleave, every payload byte-exact, at most once and in order, replies only to their own client, caps respected, expired flows closed (a late backend datagram never reaches the client), worker alive. No IPv6, no mid-flow reconfiguration beyond the known finding (affinity change with live flows, strict reproducer).",
             "DESIGN.md §4 C19"),
     "C15": ("exploration",
             "property-based testing of the frame decoder against an independent RFC 9113 reference decode, plus generated anomaly injection into live HTTP/2 conversations (own frame codec over TLS) judged by an expectation model written from RFC 9113",
@@ -78,7 +78,7 @@ CHECKS = {
             "DESIGN.md §4 C10 (a)"),
     "C18": ("exploration",
             "property-based testing (proptest): PROXY-v2 codec round trip against an independent byte-level reading of the specification; ExpectProxyProtocol driven over an in-memory socket at generated split points",
-            "Encoder output is read back by a hand-written specification reader and by the parser; arbitrary/near-miss byte strings must be accepted only when they hold a complete v2 header, consuming exactly 16 + declared length; ExpectProxyProtocol<FakeSocket> receives hand-built headers (all families, LOCAL/PROXY, TLV tails, malformed flavours) plus payload in generated read sizes with would-blocks and must upgrade exactly when the header is complete, with its addresses, and close on malformed input. A wire-lab sub-check runs one TCP session through a live worker per scenario (plain / send / expect / relay PROXY modes, generated payloads up to 256 KiB (thorough 4 MiB) each way, four generated I/O scripts with dribbles, pauses, read stalls and small socket buffers, hand-built incoming headers with TLV tails or malformed): both byte streams exact and in order, end-of-stream only after all bytes, exactly one well-formed header with the right addresses toward the backend; failures are re-run on a fresh worker and reported only when they reproduce. Sub-check corpus: hand-built PROXY-v2 headers under generated byte mutations through the byte-level oracle shared with the cargo-fuzz target ppv2 (bounded libFuzzer campaign in the thorough tier).",
+            "Encoder output is read back by a hand-written specification reader and by the parser; arbitrary/near-miss byte strings must be accepted only when they hold a complete v2 header, consuming exactly 16 + declared length; ExpectProxyProtocol<FakeSocket> receives hand-built headers (all families, LOCAL/PROXY, TLV tails, malformed flavours) plus payload in generated read sizes with would-blocks and must upgrade exactly when the header is complete, with its addresses, and close on malformed input. A wire-lab sub-check runs one TCP session through a live worker per scenario (plain / send / expect / relay PROXY modes, generated payloads up to 256 KiB (thorough 4 MiB) each way, one case in thirteen a bulk transfer of 8-20 MiB whose receiver stops reading for 0.9-1.8 s with default socket buffers, four generated I/O scripts with dribbles, pauses, read stalls and small socket buffers, hand-built incoming headers with TLV tails or malformed): both byte streams exact and in order, end-of-stream only after all bytes, exactly one well-formed header with the right addresses toward the backend; failures are re-run on a fresh worker and reported only when they reproduce. Sub-check corpus: hand-built PROXY-v2 headers under generated byte mutations through the byte-level oracle shared with the cargo-fuzz target ppv2 (bounded libFuzzer campaign in the thorough tier).",
             "Kernel segmentation and epoll order are shaped, not owned; closing is acknowledged (each side half-closes once everything arrived) because independent half-closes hit a known finding; the WebSocket-upgrade relay is not exercised; splice feature off.",
             "DESIGN.md §4 C18"),
     "C20": ("exploration",
